@@ -570,6 +570,9 @@ func (ex *Explorer) Replay(labels []string, verbose bool) []string {
 			fmt.Printf("  %-44s writes=%d\n", full, len(t.Log))
 			for _, wr := range t.Log {
 				fmt.Printf("        %s %s by %s%s\n", wr.Verb, wr.Key, wr.Actor, map[bool]string{true: " (status)", false: ""}[wr.Status])
+				if os.Getenv("VERIF_REPLAY_DIFF") != "" && wr.Before != nil && wr.After != nil {
+					fmt.Printf("            changed: %v\n", lib.JSONDiffValues(wr.Before, wr.After))
+				}
 			}
 			if t.Result != nil && t.Result.Err != nil {
 				fmt.Printf("        error: %v\n", t.Result.Err)
